@@ -1145,6 +1145,197 @@ def run_arrays(ctx, res, rng, rec, terms, metas):
 
 
 # ------------------------------------------------------------------------------------------------
+# construction forms: every sampler built with its options in every key order, with every subset of its optional keys,
+# as keyword arguments and as a configuration dictionary; the option values are asymmetric and pairwise disjoint so that
+# an option landing in the wrong slot is visible in the samples
+# ------------------------------------------------------------------------------------------------
+def option_forms(opts, rng, limit):
+    """opts: list of (key, value).  Returns ordered sub-lists: all subsets x all orders when that is at most `limit`,
+    otherwise the full set in its given and reversed order, every single key, and random (subset, order) pairs."""
+    keys = list(range(len(opts)))
+    allforms = []
+    for r in range(len(keys) + 1):
+        for sub in itertools.combinations(keys, r):
+            for perm in itertools.permutations(sub):
+                allforms.append(perm)
+                if len(allforms) > 4000:
+                    break
+    if len(allforms) <= limit:
+        chosen = allforms
+    else:
+        chosen = [tuple(keys), tuple(reversed(keys))] + [(k,) for k in keys]
+        while len(chosen) < limit:
+            sub = [k for k in keys if rng.random() < 0.6]
+            rng.shuffle(sub)
+            chosen.append(tuple(sub))
+    return [[opts[k] for k in perm] for perm in chosen]
+
+
+def build_forms(cls, opts, rng, limit):
+    """yields (description, status, sampler-or-exception, given options as a dict)"""
+    for form in option_forms(opts, rng, limit):
+        given = dict(form)
+        for style in ('kwargs', 'dict'):
+            if style == 'kwargs':
+                st, s = core.guarded(cls, **dict(form))
+            else:
+                st, s = core.guarded(cls, dict(form))
+            yield '%s(%s: %s)' % (cls.__name__, style, ', '.join(k for k, _ in form)), st, s, given
+
+
+def run_forms(ctx, res, rng, rec, terms, metas):
+    import numpy as np
+    from mitxgraders import (RealInterval, IntegerRange, ComplexRectangle, ComplexSector, RandomFunction, RealMatrices,
+                             ComplexMatrices, RealVectors, SquareMatrices, IdentityMatrixMultiples)
+    quick = ctx['tier'] == 'quick' and not ctx['escalate']
+    n = 3 if quick else 8
+    count = 0
+
+    def refuse(desc, s):
+        res.witnesses.append({'key': 'construct:' + desc, 'kind': 'construct', 'cfg': desc, 'what': 'valid configuration refused: %r' % (s,)})
+
+    def scalar_family(cls, kind, opts, eff_of, bound_forms):
+        nonlocal count
+        for bf in bound_forms:
+            o = [(k, bf(v)) for k, v in opts]
+            for desc, st, s, given in build_forms(cls, o, rng, 40):
+                if st != 'ret':
+                    refuse(desc, s)
+                    continue
+                cfg = eff_of({k: v for k, v in opts if k in given})
+                for _ in range(n):
+                    stv, v, calls = scalar_sample(rec, s)
+                    res.oracle_evals += 1
+                    count += 1
+                    bad = 'gen_sample raised %r' % (v,) if stv != 'ret' else check_scalar_value(kind, cfg, v)
+                    if bad:
+                        res.witnesses.append({'key': 'form:' + desc, 'kind': 'scalar', 'sampler': kind, 'cfg': repr(cfg),
+                                              'construction': desc, 'what': bad})
+                        continue
+                    t = scalar_term(kind, cfg, calls, v)
+                    if t is None:
+                        res.disagreements.append({'kind': 'scalar', 'construction': desc, 'what': 'unexpected oracle consultation'})
+                    else:
+                        terms.append(t)
+                        metas.append(('form', desc))
+                    res.nontrivial.add(('form', desc, repr(v)))
+
+    as_list = lambda v: list(v)
+    as_dict = lambda v: {'start': v[0], 'stop': v[1]}
+    as_dict_rev = lambda v: {'stop': v[1], 'start': v[0]}
+    scalar_family(ComplexRectangle, 'rect', [('re', (10, 12.5)), ('im', (-7, -5.5))],
+                  lambda g: (g.get('re', (1, 3)), g.get('im', (1, 3))), [as_list, as_dict, as_dict_rev])
+    scalar_family(ComplexSector, 'sect', [('modulus', (5, 6.5)), ('argument', (2, 2.75))],
+                  lambda g: (g.get('modulus', (1, 3)), g.get('argument', (0, math.pi / 2))), [as_list, as_dict_rev])
+    ident = lambda v: v
+    scalar_family(RealInterval, 'real', [('start', -20.5), ('stop', -11)], lambda g: (g.get('start', 1), g.get('stop', 5)), [ident])
+    scalar_family(IntegerRange, 'int', [('start', -20), ('stop', -11)], lambda g: (g.get('start', 1), g.get('stop', 5)), [ident])
+
+    # random functions
+    rf_defaults = dict(input_dim=1, output_dim=1, num_terms=3, center=0, amplitude=10, complex=False)
+    rf_opts = [('input_dim', 3), ('output_dim', 2), ('num_terms', 4), ('center', 7.5), ('amplitude', 0.25), ('complex', True)]
+    for desc, st, s, given in build_forms(RandomFunction, rf_opts, rng, 14 if quick else 60):
+        if st != 'ret':
+            refuse(desc, s)
+            continue
+        cfg = dict(rf_defaults, **given)
+        stf, f = core.guarded(s.gen_sample)
+        res.oracle_evals += 1
+        count += 1
+        if stf != 'ret' or getattr(f, 'nin', None) != cfg['input_dim']:
+            res.witnesses.append({'key': 'form:' + desc, 'kind': 'rf', 'cfg': repr(cfg), 'construction': desc,
+                                  'what': 'gen_sample gave %r with nin=%r' % (f, getattr(f, 'nin', None))})
+            continue
+        for _ in range(n):
+            xs = rf_point(rng, cfg['input_dim'])
+            stv, v = core.guarded(f, *xs)
+            res.oracle_evals += 1
+            if stv != 'ret':
+                res.witnesses.append({'key': 'form:' + desc, 'kind': 'rf', 'cfg': repr(cfg), 'construction': desc, 'point': repr(xs),
+                                      'what': 'evaluation raised %r' % (v,)})
+            else:
+                rf_check_values(cfg, f, xs, v, res, ':' + desc)
+
+    # arrays
+    arr_defaults = dict(shape=(2, 2), norm=[1, 5], triangular=None)
+    for cls, cx in ((RealMatrices, False), (ComplexMatrices, True)):
+        arr_opts = [('shape', (3, 4)), ('norm', [20, 21.5]), ('triangular', 'lower'), ('complex', cx)]
+        for desc, st, s, given in build_forms(cls, arr_opts, rng, 12 if quick else 70):
+            if st != 'ret':
+                refuse(desc, s)
+                continue
+            cfg = dict(dict(arr_defaults, complex=cx), **given)
+            for _ in range(n):
+                sta, arr = core.guarded(s.gen_sample)
+                res.oracle_evals += 1
+                count += 1
+                for b in (['gen_sample raised %r' % (arr,)] if sta != 'ret' else check_array(cls.__name__, cfg, arr)):
+                    res.witnesses.append({'key': 'form:' + desc, 'kind': 'array', 'sampler': cls.__name__, 'cfg': repr(cfg),
+                                          'construction': desc, 'what': b})
+    for desc, st, s, given in build_forms(RealVectors, [('shape', 5), ('norm', [30, 30.5]), ('complex', False)], rng, 20):
+        if st != 'ret':
+            refuse(desc, s)
+            continue
+        cfg = dict(dict(shape=(3,), norm=[1, 5], complex=False), **given)
+        sta, arr = core.guarded(s.gen_sample)
+        res.oracle_evals += 1
+        for b in (['gen_sample raised %r' % (arr,)] if sta != 'ret' else check_array('RealVectors', cfg, arr)):
+            res.witnesses.append({'key': 'form:' + desc, 'kind': 'array', 'sampler': 'RealVectors', 'cfg': repr(cfg),
+                                  'construction': desc, 'what': b})
+
+    # square matrices
+    sq_defaults = dict(dimension=2, symmetry=None, traceless=False, determinant=None, complex=False, norm=[1, 5])
+    for sq_opts in ([('dimension', 3), ('symmetry', 'symmetric'), ('traceless', True), ('determinant', 1), ('complex', True), ('norm', [40, 41])],
+                    [('dimension', 4), ('symmetry', 'hermitian'), ('determinant', 0), ('norm', [0.25, 0.5])],
+                    [('dimension', 3), ('symmetry', 'antisymmetric'), ('traceless', True), ('norm', [9, 9.5])]):
+        for desc, st, s, given in build_forms(SquareMatrices, sq_opts, rng, 10 if quick else 60):
+            cfg = dict(sq_defaults, **given)
+            if st != 'ret':
+                # a subset of an accepted option set may be one the constructor rejects by design: compare with a plain construction
+                st2, s2 = core.guarded(SquareMatrices, **cfg)
+                if st2 == 'ret':
+                    refuse(desc, s)
+                continue
+            for _ in range(n):
+                sta, arr = core.guarded(s.gen_sample)
+                res.oracle_evals += 1
+                count += 1
+                for b in (['gen_sample raised %r' % (arr,)] if sta != 'ret' else check_square(cfg, arr)):
+                    res.witnesses.append({'key': 'form:' + desc, 'kind': 'square', 'cfg': repr(cfg), 'construction': desc, 'what': b})
+
+    # identity multiples, including nested samplers that were themselves built in every form
+    nested = []
+    for desc, st, s, given in build_forms(ComplexRectangle, [('re', [10, 12.5]), ('im', [-7, -5.5])], rng, 40):
+        if st == 'ret':
+            nested.append((desc, s, 'rect', (tuple(given.get('re', (1, 3))), tuple(given.get('im', (1, 3))))))
+    for desc, st, s, given in build_forms(ComplexSector, [('modulus', [5, 6.5]), ('argument', [2, 2.75])], rng, 40):
+        if st == 'ret':
+            nested.append((desc, s, 'sect', (tuple(given.get('modulus', (1, 3))), tuple(given.get('argument', (0, math.pi / 2))))))
+    for ndesc, inner, kind, icfg in nested:
+        for desc, st, s, given in build_forms(IdentityMatrixMultiples, [('dimension', 3), ('sampler', inner)], rng, 10):
+            if st != 'ret':
+                refuse(desc + ' / ' + ndesc, s)
+                continue
+            dim = given.get('dimension', 2)
+            kk, cc = (kind, icfg) if 'sampler' in given else ('real', (1, 5))
+            sta, arr = core.guarded(s.gen_sample)
+            res.oracle_evals += 1
+            count += 1
+            key = 'form:%s / %s' % (desc, ndesc)
+            if sta != 'ret' or getattr(arr, 'shape', None) != (dim, dim):
+                res.witnesses.append({'key': key, 'kind': 'identity', 'construction': key, 'what': 'sample %r is not a %dx%d array' % (arr, dim, dim)})
+                continue
+            a = np.asarray(arr)
+            sc = a[0][0].item()
+            bad = check_scalar_value(kk, cc, sc)
+            if not bad and any(a[i][j] != (a[0][0] if i == j else 0) for i in range(dim) for j in range(dim)):
+                bad = 'not a multiple of the identity: %r' % (a.tolist(),)
+            if bad:
+                res.witnesses.append({'key': key, 'kind': 'identity', 'cfg': repr((dim, kk, cc)), 'construction': key, 'what': 'multiplier: ' + bad})
+    res.distribution['construction_form_draws'] = count
+
+
+# ------------------------------------------------------------------------------------------------
 # identity multiples
 # ------------------------------------------------------------------------------------------------
 def run_identity(ctx, res, rng, rec, terms, metas):
@@ -1370,7 +1561,8 @@ def run(ctx):
     timing = {}
     with Instrumented() as rec:
         for name, fn, tm in (('scalars', run_scalars, (s_terms, s_metas)), ('discrete', run_discrete, (s_terms, s_metas)),
-                             ('identity', run_identity, (s_terms, s_metas)), ('random_functions', run_random_functions, (f_terms, f_metas)),
+                             ('identity', run_identity, (s_terms, s_metas)), ('forms', run_forms, (s_terms, s_metas)),
+                             ('random_functions', run_random_functions, (f_terms, f_metas)),
                              ('arrays', run_arrays, (a_terms, a_metas)), ('squares', run_squares, (q_terms, q_metas))):
             t0 = time.time()
             fn(ctx, res, rng, rec, *tm)
